@@ -95,20 +95,67 @@ def _dict_cat(prefix, keyf, valf):
 
 def _glyph_append(kind):
     def eff(g, k):
+        # even k: objects made by the glyph itself (instantiate*, dicts); odd k: free-standing objects the caller built
+        import defcon
+        own = k % 2 == 0
         if kind == "contour":
-            c = g.instantiateContour()
+            c = g.instantiateContour() if own else defcon.Contour()
             for i, (x, y) in enumerate([(0, 0), (100 + k, 0), (50, 80)]):
                 c.addPoint((x, y), "line")
             g.appendContour(c)
         elif kind == "component":
-            c = g.instantiateComponent()
+            c = g.instantiateComponent() if own else defcon.Component()
             c.baseGlyph = "nobase%d" % (k % 3)
             g.appendComponent(c)
         elif kind == "anchor":
-            g.appendAnchor(dict(x=k, y=2, name="top"))
+            d = dict(x=k, y=2, name="top")
+            g.appendAnchor(d if own else defcon.Anchor(anchorDict=d))
         elif kind == "guideline":
-            g.appendGuideline(dict(x=10 + k, y=None, angle=None, name="gl"))
+            d = dict(x=10 + k, y=None, angle=None, name="gl")
+            g.appendGuideline(d if own else defcon.Guideline(guidelineDict=d))
     return eff
+
+
+def _children(g, kind):
+    return {"contour": lambda: list(g), "component": lambda: list(g.components), "anchor": lambda: list(g.anchors),
+            "guideline": lambda: list(g.guidelines)}[kind]()
+
+
+def _glyph_reappend(kind):
+    """take the last object out and put the same object back (the glyph must observe it again)"""
+    def eff(g, k):
+        lst = _children(g, kind)
+        if not lst:
+            _glyph_append(kind)(g, k)
+            lst = _children(g, kind)
+        obj = lst[-1]
+        getattr(g, "remove" + kind.capitalize())(obj)
+        getattr(g, "append" + kind.capitalize())(obj)
+    return eff
+
+
+def _font_append_guideline(f, k):
+    import defcon
+    d = dict(x=None, y=100 + k, angle=None, name="fg")
+    f.appendGuideline(d if k % 2 == 0 else defcon.Guideline(guidelineDict=d))
+
+
+def _font_reorder_guidelines(f, k):
+    if len(f.guidelines) < 2:
+        _font_append_guideline(f, k)
+        _font_append_guideline(f, k + 1)
+    f.guidelines = list(reversed(f.guidelines))
+
+
+def _color_same_spelled(o):
+    """the colour the object holds, spelled differently (a sequence of numbers; a string with blanks)"""
+    c = o.color
+    if c is None:
+        return False
+    parts = [float(x) for x in str(c).split(",")]
+    o.color = tuple(parts)
+    o.color = ", ".join(str(c).split(","))
+    return True
 
 
 def _glyph_remove(kind):
@@ -232,7 +279,8 @@ CATALOGUE = {
     "font": [
         ("glyphOrder=", lambda f, k: setattr(f, "glyphOrder", ["zz%d" % k] + [n for n in f.glyphOrder if not n.startswith("zz")]),
          lambda f: (setattr(f, "glyphOrder", list(f.glyphOrder)) or True)),
-        ("appendGuideline", lambda f, k: f.appendGuideline(dict(x=None, y=100 + k, angle=None, name="fg")), None),
+        ("appendGuideline", _font_append_guideline, None),
+        ("guidelines=reordered", _font_reorder_guidelines, None),
         ("removeGuideline", lambda f, k: (f.guidelines or f.appendGuideline(dict(x=None, y=5, angle=None))) and f.removeGuideline(f.guidelines[-1]), None),
         ("clearGuidelines", lambda f, k: (f.guidelines or f.appendGuideline(dict(x=None, y=5, angle=None))) and f.clearGuidelines(), None),
     ],
@@ -244,7 +292,7 @@ CATALOGUE = {
         ("defaultLayer=", None, lambda ls: (setattr(ls, "defaultLayer", ls.defaultLayer) or True)),
     ],
     "layer": [
-        _set("color", COLORS),
+        _set("color", COLORS), ("color=spelled", None, _color_same_spelled),
         ("newGlyph", lambda l, k: l.newGlyph("ng%d" % k), None),
         ("__delitem__", lambda l, k: l.newGlyph("dg%d" % k) and l.__delitem__("dg%d" % k), None),
         ("insertGlyph", lambda l, k: l.insertGlyph(_standalone_glyph(k), name="ig%d" % k), None),
@@ -266,6 +314,8 @@ CATALOGUE = {
         ("clearAnchors", _glyph_clear("anchor"), None),
         ("appendGuideline", _glyph_append("guideline"), None), ("removeGuideline", _glyph_remove("guideline"), None),
         ("clearGuidelines", _glyph_clear("guideline"), None),
+        ("reappendContour", _glyph_reappend("contour"), None), ("reappendComponent", _glyph_reappend("component"), None),
+        ("reappendAnchor", _glyph_reappend("anchor"), None), ("reappendGuideline", _glyph_reappend("guideline"), None),
         ("move", _safe(lambda g, k: (len(g) or _glyph_append("contour")(g, k), g.move((1 + k, 2))), _bump_width), None),
         ("clear", lambda g, k: (_glyph_append("anchor")(g, k), g.clear()), None),
         ("name=", lambda g, k: setattr(g, "name", "rn%d" % k), lambda g: (setattr(g, "name", g.name) or True)),
@@ -290,8 +340,9 @@ CATALOGUE = {
         ("move", lambda c, k: c.move((1 + k, 1)), None),
     ],
     "anchor": [_set("x", [1, 2, 3, 4]), _set("y", [5, 6, 7]), _set("name", [None, "top", "bottom"]), _set("color", [None] + COLORS),
-               ("move", lambda a, k: a.move((1 + k, 1)), None)],
-    "guideline": [_set("x", [11, 12, 13]), _set("name", [None, "ga", "gb"]), _set("color", [None] + COLORS)],
+               ("color=spelled", None, _color_same_spelled), ("move", lambda a, k: a.move((1 + k, 1)), None)],
+    "guideline": [_set("x", [11, 12, 13]), _set("name", [None, "ga", "gb"]), _set("color", [None] + COLORS),
+                  ("color=spelled", None, _color_same_spelled)],
     "image": [_set("fileName", ["img0.png", "img1.png", "img2.png"]), _set("color", [None] + COLORS),
               ("transformation=", lambda i, k: setattr(i, "transformation", (1, 0, 0, 1, 30 + k, 0)),
                lambda i: (setattr(i, "transformation", tuple(i.transformation)) or True)),
@@ -486,6 +537,8 @@ class Tree(object):
             layer = font.layers[ln]
             self.add_layer(layer, ls)
         self.add(font.info, "info", 0)
+        for gl in font.guidelines:
+            self.add(gl, "guideline", 0)
         self.add(font.kerning, "kerning", 0)
         self.add(font.groups, "groups", 0)
         self.add(font.features, "features", 0)
@@ -525,6 +578,8 @@ class Tree(object):
     def refresh(self):
         """objects created by mutators join the tree"""
         font = self.font
+        for gl in font.guidelines:
+            self.add(gl, "guideline", 0)
         ls = self.ids[id(font.layers)]
         for ln in font.layers.layerOrder:
             layer = font.layers[ln]
